@@ -86,12 +86,30 @@ class set:
     def __enter__(self):
         return self.config
 
+    def __exit__(self, exc_type, exc_value, traceback) -> None:
+        """Undo the assignments made by this ``set``, most recent first"""
+        for op, path, value in reversed(self._record):
+            d = self.config
+            if op == "replace":
+                for key in path[:-1]:
+                    d = d.setdefault(canonical_name(key, d), {})
+                d[canonical_name(path[-1], d)] = value
+            else:  # insert
+                for key in path[:-1]:
+                    try:
+                        d = d[canonical_name(key, d)]
+                    except (KeyError, TypeError):
+                        break
+                else:
+                    d.pop(canonical_name(path[-1], d), None)
+
     def _assign(
         self,
         keys: Sequence[str],
         value: Any,
         d: dict,
         path: tuple[str, ...] = (),
+        record: bool = True,
     ) -> None:
         """Assign value into a nested configuration dictionary
 
@@ -105,17 +123,28 @@ class set:
             value
         path : tuple[str], optional
             The path history up to this point.
+        record : bool, optional
+            Whether this operation needs to be recorded to allow for rollback.
         """
         key = canonical_name(keys[0], d)
 
         path = path + (key,)
 
         if len(keys) == 1:
+            if record:
+                if key in d:
+                    self._record.append(("replace", path, d[key]))
+                else:
+                    self._record.append(("insert", path, None))
             d[key] = value
         else:
             if key not in d:
+                if record:
+                    self._record.append(("insert", path, None))
                 d[key] = {}
-            self._assign(keys[1:], value, d[key], path)
+                # No need to record subsequent operations after an insert
+                record = False
+            self._assign(keys[1:], value, d[key], path, record=record)
 
 
 def refresh(config: dict = config, defaults: list[Mapping] = defaults, **kwargs) -> None:
